@@ -291,6 +291,7 @@ class WorkerRun:
         pool = [
             "epoch done\n", "{'not': 'a report'}\n", "[tune] {broken\n", "x={1:2}\n",
             "café ☃ }\n", "] [ } {\n", "no newline at end", '"quoted" \\ backslash\n', "\n",
+            "\u2588" * 60 + "\n", "\u8a13\u7df4\u4e2d \u9032\u6357 " * 8 + "\n", "progress 50%\r\n", "\u00e4\u00f6\u00fc \u00df\u00e9\u00e8 \u00f1 \u20ac\r\n",
         ]
         return [pool[int(hfloat(u, i) * len(pool))] for i in range(k)]
 
